@@ -127,6 +127,60 @@ func refSFlow(body []byte) refOut {
 	return refOut{'d', colRe.ReplaceAllString(string(b), `"ColTime":0`), 0}
 }
 
+// refDigest: an order-independent digest of a template cache without the timestamps (keys, template ids, counts, every
+// field specifier of every template): cheap enough to be taken after every datagram of a 2000-datagram stream
+func refDigest(c interface{}) uint64 {
+	var sum uint64
+	mix := func(h uint64, v uint64) uint64 { return (h ^ v) * 1099511628211 }
+	str := func(h uint64, s string) uint64 {
+		for i := 0; i < len(s); i++ {
+			h = mix(h, uint64(s[i]))
+		}
+		return mix(h, 0x1ff)
+	}
+	switch m := c.(type) {
+	case ipfix.MemCache:
+		for i, sh := range m {
+			if sh == nil {
+				continue
+			}
+			for k, d := range sh.Templates {
+				h := str(mix(14695981039346656037, uint64(i)), k)
+				t := d.Template
+				h = mix(mix(mix(h, uint64(t.TemplateID)), uint64(t.FieldCount)), uint64(t.ScopeFieldCount))
+				for _, f := range t.ScopeFieldSpecifiers {
+					h = mix(mix(mix(h, uint64(f.ElementID)), uint64(f.Length)), uint64(f.EnterpriseNo))
+				}
+				h = mix(h, 0x2ff)
+				for _, f := range t.FieldSpecifiers {
+					h = mix(mix(mix(h, uint64(f.ElementID)), uint64(f.Length)), uint64(f.EnterpriseNo))
+				}
+				sum += h
+			}
+		}
+	case netflow9.MemCache:
+		for i, sh := range m {
+			if sh == nil {
+				continue
+			}
+			for k, d := range sh.Templates {
+				h := str(mix(14695981039346656037, uint64(i)), k)
+				t := d.Template
+				h = mix(mix(mix(h, uint64(t.TemplateID)), uint64(t.FieldCount)), uint64(t.ScopeFieldCount))
+				for _, f := range t.ScopeFieldSpecifiers {
+					h = mix(mix(h, uint64(f.ElementID)), uint64(f.Length))
+				}
+				h = mix(h, 0x2ff)
+				for _, f := range t.FieldSpecifiers {
+					h = mix(mix(h, uint64(f.ElementID)), uint64(f.Length))
+				}
+				sum += h
+			}
+		}
+	}
+	return sum
+}
+
 func e2eref(args []string) int {
 	maxUDP := 1500
 	if len(args) > 0 {
@@ -140,7 +194,7 @@ func e2eref(args []string) int {
 	defer os.RemoveAll(tmp)
 	cacheI := ipfix.GetCache(filepath.Join(tmp, "ipfix.none"))
 	cache9 := netflow9.GetCache(filepath.Join(tmp, "nf9.none"))
-	fpI, fp9 := pipeFingerprint(cacheI), pipeFingerprint(cache9)
+	fpI, fp9 := refDigest(cacheI), refDigest(cache9)
 	sc := bufio.NewScanner(os.Stdin)
 	sc.Buffer(make([]byte, 1<<20), 1<<26)
 	w := bufio.NewWriterSize(os.Stdout, 1<<20)
@@ -193,12 +247,12 @@ func e2eref(args []string) int {
 		switch f[0] {
 		case "ipfix":
 			z = zeroLenFields(cacheI)
-			if fp := pipeFingerprint(cacheI); fp != fpI {
+			if fp := refDigest(cacheI); fp != fpI {
 				fpI, chg = fp, 1
 			}
 		case "nf9":
 			z = zeroLenFields(cache9)
-			if fp := pipeFingerprint(cache9); fp != fp9 {
+			if fp := refDigest(cache9); fp != fp9 {
 				fp9, chg = fp, 1
 			}
 		}
